@@ -42,7 +42,8 @@ type impWant struct {
 var impWants = []impWant{
 	{dir: "sequtil", pkg: "sequtil",
 		funcs: []string{"Ntoi", "Iton", "complementByte", "ReverseComplement", "DNATo2Bit", "DNAFrom2Bit",
-			"CanonicalSubsequences", "Translate", "TranslateReadingFrames", "ReverseComplementString", "AminoName"},
+			"CanonicalSubsequences", "Translate", "TranslateReadingFrames", "ReverseComplementString", "AminoName",
+			"init@sequtil.go#0", "init@sequtil.go#1"},
 		globals: map[string]string{"ntoi": "g_sequtil_ntoi", "complementBytes": "g_sequtil_complementBytes",
 			"dnaFrom2bit": "g_sequtil_dnaFrom2bit", "codonToAmino": "g_sequtil_codonToAmino",
 			"aminoToName": "g_sequtil_aminoToName"}},
@@ -116,6 +117,8 @@ type impTr struct {
 	outName  string
 	tupleTys map[string]string
 	ioReader types.Object
+	files    []*ast.File
+	initVars map[types.Object]bool // package-level variables an init function assigns: its locals and results
 	calleeSty string
 	nparams  int
 	recv     string // the reader object's record (fields other than the bufio one), returned with rd__
@@ -486,6 +489,9 @@ func (t *impTr) ex(e ast.Expr, pre *[]opener) string {
 			o = t.info.Defs[e]
 		}
 		if v, ok := o.(*types.Var); ok {
+			if v.Parent() == v.Pkg().Scope() && t.initVars[o] {
+				return t.nameOf(o)
+			}
 			if v.Parent() == v.Pkg().Scope() { // package-level variable
 				g, ok := t.globals[e.Name]
 				if !ok {
@@ -1151,7 +1157,7 @@ func (t *impTr) assigned(n ast.Node) ([]types.Object, int) {
 		if o.Pos() >= n.Pos() && o.Pos() < n.End() {
 			return
 		}
-		if v, ok := o.(*types.Var); ok && v.Parent() == v.Pkg().Scope() {
+		if v, ok := o.(*types.Var); ok && v.Parent() == v.Pkg().Scope() && !t.initVars[o] {
 			t.fail(id, "assignment to a package-level variable")
 		}
 		if !seen[o] {
@@ -1332,7 +1338,7 @@ func (t *impTr) store(lhs ast.Expr, v string, pre *[]opener) {
 		if o == nil {
 			o = t.info.Uses[l]
 		}
-		if vv, ok := o.(*types.Var); ok && vv.Parent() == vv.Pkg().Scope() {
+		if vv, ok := o.(*types.Var); ok && vv.Parent() == vv.Pkg().Scope() && !t.initVars[o] {
 			t.fail(l, "assignment to a package-level variable")
 		}
 		*pre = append(*pre, opener{fmt.Sprintf("let %s := %s in ", t.nameOf(o), v), ""})
@@ -2366,6 +2372,46 @@ func (t *impTr) function(fd *ast.FuncDecl, coqName string) *impFn {
 		return true
 	})
 	t.selfFn = &impFn{name: coqName, fuel: recursive, oracle: t.oracle, buf: -1, out: -1, writer: -1}
+	t.initVars = map[types.Object]bool{}
+	var initOrder []types.Object
+	if fd.Name.Name == "init" && fd.Recv == nil {
+		ast.Inspect(fd.Body, func(n ast.Node) bool {
+			var lhs []ast.Expr
+			switch st := n.(type) {
+			case *ast.AssignStmt:
+				lhs = st.Lhs
+			case *ast.IncDecStmt:
+				lhs = []ast.Expr{st.X}
+			case *ast.CallExpr:
+				if id, ok := st.Fun.(*ast.Ident); ok && id.Name == "copy" && len(st.Args) == 2 {
+					lhs = []ast.Expr{st.Args[0]}
+				}
+			}
+			for _, e := range lhs {
+				for {
+					switch x := e.(type) {
+					case *ast.IndexExpr:
+						e = x.X
+						continue
+					case *ast.SliceExpr:
+						e = x.X
+						continue
+					case *ast.SelectorExpr:
+						e = x.X
+						continue
+					}
+					break
+				}
+				if id, ok := e.(*ast.Ident); ok {
+					if v, ok := t.info.Uses[id].(*types.Var); ok && v.Parent() == v.Pkg().Scope() && !t.initVars[v] {
+						t.initVars[v] = true
+						initOrder = append(initOrder, v)
+					}
+				}
+			}
+			return true
+		})
+	}
 	if recursive {
 		t.fuel = true
 		t.fns[t.self] = t.selfFn
@@ -2524,6 +2570,34 @@ func (t *impTr) function(fd *ast.FuncDecl, coqName string) *impFn {
 			}
 			return "Ret (" + v + ")"
 		}
+		if len(initOrder) > 0 {
+			// an init function: the package-level variables it assigns start from their declared
+			// initialisers (or zero values) and are its results
+			var names, tys []string
+			for _, v := range initOrder {
+				names = append(names, t.nameOf(v))
+				tys = append(tys, t.ty(v.Type()))
+				val := t.zero(v.Type())
+				for _, f := range t.files {
+					for _, d := range f.Decls {
+						if gd, ok := d.(*ast.GenDecl); ok && gd.Tok == token.VAR {
+							for _, sp := range gd.Specs {
+								vs := sp.(*ast.ValueSpec)
+								for i, n := range vs.Names {
+									if t.info.Defs[n] == v && i < len(vs.Values) {
+										val = t.ex(vs.Values[i], &pre)
+									}
+								}
+							}
+						}
+					}
+				}
+				pre = append(pre, opener{fmt.Sprintf("let %s : %s := %s in ", t.nameOf(v), t.ty(v.Type()), val), ""})
+			}
+			end = "Ret (" + strings.Join(names, ", ") + ")"
+			t.retWrap = func(string) string { return end }
+			rt = "(" + strings.Join(tys, " * ") + ")"
+		}
 		if t.bufName != "" && sig.Results().Len() == 0 {
 			// a function that writes into its *bytes.Buffer parameter: the result is the buffer
 			end = "Ret " + t.bufName
@@ -2626,14 +2700,32 @@ func genImp(repo, out string) {
 		fmt.Fprintf(sb, "(* ---- package %s ---- *)\n", want.dir)
 		for _, fname := range want.funcs {
 			recv, name := "", fname
-			if i := strings.IndexByte(fname, '.'); i >= 0 {
+			initFile, initIdx := "", -1
+			if strings.HasPrefix(fname, "init@") { // init@file.go#k : the k-th init function of that file
+				rest := strings.TrimPrefix(fname, "init@")
+				h := strings.IndexByte(rest, '#')
+				initFile = rest[:h]
+				fmt.Sscanf(rest[h+1:], "%d", &initIdx)
+				name = "init"
+			} else if i := strings.IndexByte(fname, '.'); i >= 0 {
 				recv, name = fname[:i], fname[i+1:]
 			}
 			var decl *ast.FuncDecl
+			seenInit := 0
 			for _, f := range files {
 				for _, d := range f.Decls {
 					fd, ok := d.(*ast.FuncDecl)
 					if !ok || fd.Name.Name != name {
+						continue
+					}
+					if initFile != "" {
+						if !strings.HasSuffix(fset.Position(fd.Pos()).Filename, "/"+initFile) {
+							continue
+						}
+						if seenInit == initIdx {
+							decl = fd
+						}
+						seenInit++
 						continue
 					}
 					r := ""
@@ -2656,7 +2748,8 @@ func genImp(repo, out string) {
 			}
 			body := &strings.Builder{}
 			t.out = body
-			coqName := "imp_" + want.pkg + "_" + strings.ReplaceAll(fname, ".", "_")
+			coqName := "imp_" + want.pkg + "_" + strings.NewReplacer(".", "_", "@", "_", "#", "_").Replace(strings.ReplaceAll(fname, ".go", ""))
+			t.files = files
 			fn := t.function(decl, coqName)
 			t.fns[info.Defs[decl.Name]] = fn
 			sb.WriteString(body.String())
